@@ -9,6 +9,7 @@ import (
 	"net/http"
 	"net/http/httptest"
 	"net/url"
+	"sort"
 	"strings"
 	"time"
 
@@ -22,11 +23,12 @@ import (
 // (auth.NewAuthenticatorMux + timeout handler + logging handler), but with the cookie settings
 // this property quantifies over.
 type authCfg struct {
-	Index    int    `json:"index"`
-	Secure   bool   `json:"cookie_secure"`
-	HTTPOnly bool   `json:"cookie_httponly"`
-	Domain   string `json:"cookie_domain"`
-	Slug     string `json:"slug"`
+	Index    int           `json:"index"`
+	Secure   bool          `json:"cookie_secure"`
+	HTTPOnly bool          `json:"cookie_httponly"`
+	Domain   string        `json:"cookie_domain"`
+	Slug     string        `json:"slug"`
+	Timeout  time.Duration `json:"-"`
 	as       *sut.AuthStack
 	idp      *sut.FakeIdP
 	learned  map[string]string
@@ -55,6 +57,9 @@ func newAuthRig(c *authCfg) error {
 	cfg.SessionConfig.CookieConfig.HTTPOnly = c.HTTPOnly
 	cfg.ServerConfig.Host = as.Host
 	cfg.ServerConfig.TimeoutConfig.Request = 45 * time.Second
+	if c.Timeout != 0 {
+		cfg.ServerConfig.TimeoutConfig.Request = c.Timeout
+	}
 	cfg.MetricsConfig.StatsdConfig.Host = "127.0.0.1"
 	if err := cfg.Validate(); err != nil {
 		idp.Close()
@@ -154,6 +159,38 @@ func runAuthWorkload(rep *vh.Report, env vh.Env) {
 		runAuthCfg(rep, env, c, lo, per, only)
 		c.close()
 	}
+	if only < 0 {
+		authTimeoutProbe(rep)
+	}
+}
+
+// authTimeoutProbe records (without judging) what the 503 of the request-timeout handler that
+// cmd/sso-auth wraps around the whole mux looks like: it is produced outside the authenticator's
+// endpoints and the statement's "every response from the ... endpoints" does not obviously cover it.
+func authTimeoutProbe(rep *vh.Report) {
+	c := &authCfg{Index: 99, Secure: true, HTTPOnly: true, Slug: "okta", Timeout: 300 * time.Millisecond}
+	if err := newAuthRig(c); err != nil {
+		return
+	}
+	defer c.close()
+	as := c.as
+	for k := 0; k < 3; k++ {
+		at := fmt.Sprintf("held-token-%d", k)
+		ch := make(chan struct{})
+		as.IdP.Set("introspect", at, sut.Answer{Status: 200, Body: `{"active":true}`, Hold: ch})
+		res := do(as.Addr, wreq{Host: as.Host, Target: as.Path("validate") + "?client_id=" + as.ClientID,
+			Headers: [][2]string{{"X-Client-Secret", as.ClientSecret}, {"X-Access-Token", at}}})
+		close(ch)
+		if res.Final == nil || res.Final.Status != 503 {
+			rep.Count("auth_timeout_probe_other_outcome", 1)
+			continue
+		}
+		if len(res.Final.values("X-Frame-Options")) == 0 {
+			rep.Count("dontcare_auth_request_timeout_503_without_security_headers", 1)
+		} else {
+			rep.Count("dontcare_auth_request_timeout_503_with_security_headers", 1)
+		}
+	}
 }
 
 func authJudge(rep *vh.Report, idx int, c *authCfg, o *authObs, w *wresp, reqHost string) {
@@ -187,12 +224,14 @@ func authJudge(rep *vh.Report, idx int, c *authCfg, o *authObs, w *wresp, reqHos
 	case w.Status >= 400:
 		class = "error"
 	}
+	var missing []string
 	for h, want := range c.learned {
 		vals := w.values(h)
 		kind := ""
 		switch {
 		case len(vals) == 0:
-			kind = "missing"
+			missing = append(missing, h)
+			continue
 		case vals[0] != want:
 			kind = "wrong-value"
 		case len(vals) > 1:
@@ -204,6 +243,16 @@ func authJudge(rep *vh.Report, idx int, c *authCfg, o *authObs, w *wresp, reqHos
 		}
 		rep.Violate(authStream, idx, fmt.Sprintf("auth: %s %s endpoint=/%s class=%s", h, kind, o.Endpoint, class),
 			fmt.Sprintf("%s of a %d response of /%s: got %q, want exactly %q", h, w.Status, o.Endpoint, vals, want), o)
+	}
+	sort.Strings(missing)
+	if len(missing) == len(c.learned) && len(missing) > 1 {
+		rep.Violate(authStream, idx, fmt.Sprintf("auth: whole security header set missing endpoint=/%s class=%s", o.Endpoint, class),
+			fmt.Sprintf("a %d response of /%s carries none of %v", w.Status, o.Endpoint, missing), o)
+	} else {
+		for _, h := range missing {
+			rep.Violate(authStream, idx, fmt.Sprintf("auth: %s missing endpoint=/%s class=%s", h, o.Endpoint, class),
+				fmt.Sprintf("a %d response of /%s does not carry %s", w.Status, o.Endpoint, h), o)
+		}
 	}
 	for _, line := range w.values("Set-Cookie") {
 		ck := parseSetCookie(line)
